@@ -64,6 +64,22 @@ def main():
     chk.cov["evaluations"] = res["inputs"]
     for m in res["shape"]:
         chk.violation({"input": m["input"], "what": m["what"], "impl": m["impl"]})
+    # valid but expensive inputs (millions of parser steps: too many for the model, the three entry points are compared with each
+    # other): deep parentheses, very long chains, long literals
+    special = [list("(" * d + "a == 1" + ")" * d) for d in ((8, 9) if quick else (8, 9, 10))] + \
+              [list("a == 1 and " * 17000 + "b == 2"), list("not " * 4000 + "a == 1"), list('a == "' + "x" * 300000 + '"'), list("a." + "b." * 50000 + "c == 1")]
+    if not quick:
+        special += [list("a == 1 or " * 20000 + "b == 2"), list("(" * 9 + "a == 1" + ")" * 8)]
+    with open(os.path.join(wd, "special.ndjson"), "w") as fh:
+        for sp in special:
+            fh.write(json.dumps({"inp": sp, "obs": {"acc": "?"}, "cnt": 0, "errs": 0, "bud": {}, "seed": 0, "rt": True}) + "\n")
+    vlib.harness(["parse", "-cases", os.path.join(wd, "special.ndjson"), "-out", os.path.join(wd, "special.json"), "-shapes=true"])
+    sres = json.load(open(os.path.join(wd, "special.json")))
+    vlib.log("c10: %d expensive inputs outside the model %s: %d shape problems" % (sres["inputs"], sres["byacc"], len(sres.get("shape") or [])))
+    for m in sres.get("shape") or []:
+        chk.violation({"input": m["input"][:120] + "... (%d bytes)" % len(m["input"]), "what": m["what"], "impl": m["impl"]})
+    chk.cov["evaluations"] += sres["inputs"]
+    chk.notes["expensive_inputs_outside_the_model"] = sres["byacc"]
     # accept / reject agreement with the specification is C15's verdict; here only a diagnostic
     chk.notes["language_mismatches (diagnostic, C15's verdict)"] = len(res["language"])
     execs = fuzz(chk, 20 if quick else 600)
